@@ -1,5 +1,6 @@
 import TLVerif.Codec.Ops.Common
-import TLVerif.Codec.Access
+import TLVerif.Codec.Access2
+import TLVerif.Codec.Ops.TL2
 /-! `codec.acc <sid> <ty> <tlname> <hexA> <hexB|-> <path> <field> <op> <arg> <nat> <report>` (C43): decode, call the accessor
 model, answer the `IsSet` reports of the listed fields and the boxed TL1 re-encoding (format: go/hgen/access.go.tmpl). -/
 namespace TLVerif.Codec
@@ -66,6 +67,44 @@ def handleAccess : OpHandler := fun st op args =>
             let w := outBytes (writeTL1 d (fuelFor d (bsA.length + lenB + 64)) ty false [] (materialize d (fuelFor d (bsA.length + lenB + 64)) ty [] r.top))
             some s!"ok isset={if reps.isEmpty then "-" else isset} w1b={w}"
     | _, _, _, _ => some "bad-op"
+  | "acc2", [sid, ty, _name, hA, hB, ops, report] =>
+    -- accessor history on a TL2-origin struct: decode TL2, apply `s<i>:<Go>:<0|1|v>` / `c<i>:<Go>` steps, answer the IsSet
+    -- reports after every step and the TL2 re-encoding
+    match st.lookup sid, ty.toNat?, bytesOfHex hA with
+    | some sc, some ty, some bsA =>
+      let d := sc.desc
+      let fuel := fuelFor d (bsA.length + hB.length + 64)
+      match d.get? ty, readTop d fuel ty bsA with
+      | some (.struct s), .ok (.struct vals, _) =>
+        let donor : List (Option Val) :=
+          match bytesOfHex hB with
+          | some bsB => (match readTop d fuel ty bsB with | .ok (.struct dv, _) => dv | _ => [])
+          | none => []
+        let parse (t : String) : Option AccStep :=
+          match t.toList with
+          | 'c' :: r => (idxOfTok (String.ofList r)).map AccStep.clear
+          | 's' :: r =>
+            (match (String.ofList r).splitOn ":" with
+             | [i, _, a] =>
+               (match i.toNat? with
+                | some i =>
+                  if a == "0" then some (.setBool i false) else if a == "1" then some (.setBool i true)
+                  else
+                    match s.fields[i]? with
+                    | some f => some (.setVal i (match donor[i]? with | some (some v) => v | _ => zeroVal d (d.insts.size + 1) f.ty))
+                    | none => none
+                | none => none)
+             | _ => none)
+          | _ => none
+        let steps := (ops.splitOn ",").filterMap parse
+        if steps.length != (ops.splitOn ",").length then some "bad-op" else
+        let reps := (report.splitOn ",").filterMap idxOfTok
+        let (o, hist) := runSteps s.fields reps (AObj.ofRead2 vals) steps
+        let showRep (r : List (Nat × Bool)) : String := ",".intercalate (r.map (fun p => s!"{p.1}:{if p.2 then "1" else "0"}"))
+        some s!"ok steps={";".intercalate (hist.map showRep)} w2={outW2 (writeTop d fuel ty (o.toVal2 d s.fields))}"
+      | _, .error e => some (errStr e)
+      | _, _ => some "bad-op"
+    | _, _, _ => some "bad-op"
   | _, _ => none
 
 end TLVerif.Codec
